@@ -175,7 +175,7 @@ fn non_ids() -> Vec<String> {
 
 pub fn run(tier: Tier) -> i32 {
     let mut run = Run::new("C15", tier, "exploration");
-    run.rule = "all units of units.txt (parsed by the harness) x all their ids: pointer-identical lookup, table agreement, Zinc text `m id` in 6 spellings; 16 magnitudes through both codecs — Zinc, Hayson to_string/from_str, to_value/from_value, the member-sorted text, the typed Number — and in five positions (list element, dict value followed by another tag, grid meta, column meta, last cell of a row); every ordered pair of identifiers as two numbers in one document (list and dict); two different database entries never compare equal (as units or inside Numbers); every non-id string (length<=3 over the unit alphabet, every 1-edit of an id) must not be found; non-trivial = distinct id / non-id string".into();
+    run.rule = "all units of units.txt (parsed by the harness) x all their ids: pointer-identical lookup, table agreement, Zinc text `m id` in 6 spellings; 16 magnitudes through both codecs — Zinc, Hayson to_string/from_str, to_value/from_value, the member-sorted text, the typed Number — and in five positions (list element, dict value followed by another tag, grid meta, column meta, last cell of a row); every ordered pair of identifiers as two numbers in one document (list and dict); two different database entries never compare equal (as units or inside Numbers); every non-id string (length<=3 over the unit alphabet, every 1-edit of an id; every id with any one character replaced by — or an end extended with — each of ~480 characters of the Latin-1, Greek, super/subscript, letterlike and full-width blocks) must not be found; non-trivial = distinct id / non-id string".into();
     run.assume("unit-gen/units.txt is the unit database of record");
     crate::engine::quiet_panics();
     let d = db();
@@ -262,6 +262,44 @@ pub fn run(tier: Tier) -> i32 {
         }
     });
     run.absorb(l);
+    // wide substitution: every character of every identifier replaced by (thorough: also every
+    // position preceded by) every character of the Latin-1, Greek, super/subscript, letterlike and
+    // full-width blocks — look-alikes and compatibility forms of the database's own characters
+    // (µ/μ, Ω/Ω, °/º, ²/2 ...) are in there without being listed by hand
+    {
+        let wide: Vec<char> = (0xa1u32..=0xff).chain(0x370..=0x3ff).chain(0x2070..=0x209f).chain(0x2100..=0x214f).chain(0xff01..=0xff5e).chain([0x200b, 0xfeff, 0x301, 0x20ac]).filter_map(char::from_u32).collect();
+        let ids: Vec<&String> = d.by_id.keys().collect();
+        let l = par_for(ids.len(), |i, local| {
+            let ch: Vec<char> = ids[i].chars().collect();
+            for pos in 0..=ch.len() {
+                for &w in &wide {
+                    let mut variants: Vec<String> = vec![];
+                    if pos < ch.len() && ch[pos] != w {
+                        let mut c = ch.clone();
+                        c[pos] = w;
+                        variants.push(c.iter().collect());
+                    }
+                    if tier == Tier::Thorough || pos == ch.len() || pos == 0 {
+                        let mut c = ch.clone();
+                        c.insert(pos, w);
+                        variants.push(c.iter().collect());
+                    }
+                    for t in variants {
+                        if d.by_id.contains_key(&t) {
+                            continue;
+                        }
+                        local.eval();
+                        local.count("wide-edits");
+                        if let Some(u) = get_unit(&t) {
+                            local.fail(&format!("non-id-found:{}", id_class(&t)), json!({"id": t, "stage": "non-id"}), format!("get_unit({t:?}) = {:?}", u.ids));
+                        }
+                    }
+                }
+            }
+        });
+        run.absorb(l);
+        run.require(run.counter("wide-edits") > 1_000_000, "wide substitution sweep too small");
+    }
     run.require(run.counter("units") as usize == d.units.len() && d.units.len() >= 400, "not all units swept");
     run.stats.samples = vec![json!({"unit": "kilowatt", "ids": ["kilowatt", "kW"], "zinc": ["7kW", "1.5e+2kilowatt"]}), json!({"non_id": "kWs"})];
     run.finish(&replay)
